@@ -15,10 +15,14 @@ import (
 // nothing after an error; on end of stream it half-closes the destination after the last byte and
 // stops reading the source; it fully closes only when a half-close is not possible.
 func VfC05_OneDirection() {
+	nd.ConcreteClock(true)
 	bufSize = nd.Param("bufsize", 4) // "many buffer sizes" within the bound
 	var log []string
-	src := &vfConn{name: "src", failAt: -1, log: &log}
-	dst := &vfConn{name: "dst", failAt: -1, log: &log}
+	src := &vfConn{name: "src", failAt: -1, slowWriteAt: -1, log: &log}
+	dst := &vfConn{name: "dst", failAt: -1, slowWriteAt: -1, log: &log}
+	if nd.Bool("receiver-stalls") {
+		dst.slowWriteAt = nd.Concrete(nd.IntRange("slowat", 0, 1))
+	}
 	sent := vfScript(src, nd.Param("reads", 3), nd.Param("chunk", 6))
 	if nd.Bool("write-fails") {
 		dst.failAt = nd.Concrete(nd.IntRange("failat", 0, 2))
@@ -47,6 +51,7 @@ func VfC05_OneDirection() {
 	if src.readErr == nil && !wfailed {
 		nd.Assert(vfIndex(log, "EOF:src") >= 0 && cw > vfIndex(log, "EOF:src"), "end of stream is signalled only after the source's end was seen")
 	}
+	nd.Assert(!src.pastDeadline, "the idle deadline of a source that keeps sending lies in the future whenever it is armed (time spent writing to a slow receiver is not idleness of the sender)")
 	// idle timeout: a read deadline is set before every read of the source
 	for i, e := range log {
 		if e == "R:src" || e == "EOF:src" {
@@ -63,8 +68,8 @@ func VfC05_BufferReuse() {
 	p := vfNewTCPProc(0)
 	for round := 0; round < 2; round++ {
 		var log []string
-		src := &vfConn{name: "src", failAt: -1, log: &log}
-		dst := &vfConn{name: "dst", failAt: -1, log: &log}
+		src := &vfConn{name: "src", failAt: -1, slowWriteAt: -1, log: &log}
+		dst := &vfConn{name: "dst", failAt: -1, slowWriteAt: -1, log: &log}
 		sent := vfScript(src, 2, 5)
 		p.pipeConn(netutil.New(src), netutil.New(dst))
 		if src.readErr == nil {
